@@ -25,6 +25,8 @@ CLAIMED = {
   "Universal Coq theorems over arbitrary graphs: find_head is sound and complete; headers/entries and exiting/exits equal their set definitions and come out sorted (line-by-line models); reference reachability (>=1 edge), dominance in both directions and strongly connected components equal their path-based definitions. The implementation's answers (find_head, both subset queries for all subsets, is_reachable_dfs for all pairs, _doms, _post_doms, compute_scc) are compared with these on ALL graphs with <=3 nodes/out-degree 2 and on random graphs up to 30 nodes."),
  "C14": ("proof", "5 (C14)", "Coq proofs over line-by-line models of the edit primitives; order-exact correspondence; verified checker for control-block arcs",
   "Universal Coq theorems over the line-by-line models: insert_block's successor rewrite keeps the order of remaining successors, removes every arc into S and adds the new block exactly once; only predecessors change, back edges untouched, the new block has exactly the successors S; join_returns is a no-op with at most one exit and otherwise adds one exit reached from every former exit. The control-block variant is decided per result by the verified checker cb_ok (each rerouted arc has its own assignment block; the head's table leads to the arc's original target). All four primitives are compared order-exactly (incl. KeyError/AssertionError) with the implementation over all small graphs x all (P,S). Path preservation under arbitrary sequences of edits is not proved (per-run by C01)."),
+ "C15": ("proof", "5 (C15)", "Coq proof that the written dictionary determines the hierarchy; per-graph evaluation of the implementation's round trips; dictionaries compared with the model",
+  "Universal Coq theorems over the model of to_dict: an entry determines its block (class, payload, ordered successors, back edges, value table / assignments, region kind, header, exiting, recorded parent, children) and two hierarchies with unique names and the same dictionary have the same blocks and nesting. Per graph (all stages, plain and bytecode payloads) the implementation's write-read-write chain is evaluated through dict and YAML, and each written dictionary is compared with the model's to_dict of the exported graph - so the re-read graph equals the written one in everything the dictionary records. from_dict's reconstruction and the YAML text layer (PyYAML) are exercised, not modelled."),
  "C16": ("proof", "5 (C16)", "Coq proof of the breadth-first iterator model for arbitrary graphs; order-exact correspondence on every (sub)graph of every stage",
   "Universal Coq theorems (any graph, any successor function, no bound on size): the breadth-first iterator with the code's queue discipline terminates, yields the head first, no item twice, only items of the level, everything reachable, and every other item after one of its predecessors; so the region-concealing view is a permutation of the graph's own items and SCFG.__iter__ a permutation of all descendants whenever each level is connected from its head - a hypothesis evaluated per instance. The model's lists equal the implementation's, order included, for every sub-region at every depth after every stage."),
  "C18": ("proof", "5 (C18)", "Coq proof over a model of NameGenerator translated from source; exact correspondence on recorded histories",
